@@ -91,12 +91,3 @@ Theorem c02_spawn_adds_component_less_entities :
     end.
 Proof. exact spawn_effect_map. Qed.
 Print Assumptions c02_spawn_adds_component_less_entities.
-
-Require Import EV.Member EV.Fetch EV.NoUB EV.Sender EV.Users.
-(* World::get on any reachable world returns exactly what the storage map holds for (entity, component type) *)
-Theorem c02_get_reads_the_storage_map :
-  forall (beh : hinfo -> logent -> N -> script) (fuel p : N) (ops : list top_all) (e : key) (ktag : N),
-    let w := fold_left (run_top_all beh) ops (world0 fuel p) in
-    op_get e ktag w = inr (match alookup ktag (w_cby w) with Some ck => abs w e (fst ck) | None => None end).
-Proof. exact reachable_get_is_abs. Qed.
-Print Assumptions c02_get_reads_the_storage_map.
